@@ -6,6 +6,7 @@ from sa.rules import cpp_rules as C
 from sa.rules import pipeline as P
 from sa.rules import schematype as S
 from sa.rules import validators as V
+from sa.rules import dep_rules as DR
 
 
 def main(tier):
@@ -21,7 +22,7 @@ def main(tier):
             "(UpdateFromTextStream, WriteToTextStream, IsAggregate, Ok) exists on every view kind (R-IFACE); the overflow "
             "guard of the text integer decoder depends on every operand of the accumulating update it protects — "
             "accumulator, base and the incoming digit — a necessary condition for rejecting exactly the overflowing "
-            "numbers (R-GUARDDEPS); sibling text-format templates that place a name inside a C string literal (writer and reader of field names and enum names) are given the same name expression by the generator (R-TEXTNAME). "
+            "numbers (R-GUARDDEPS); what the array writer puts after an element is what the array reader accepts there, in each output mode (R-ARRAYSEP: one known finding); aliases of anonymous-bits members are ordered by more than the first component of their reference (R-ALIASDEPS: one known finding); sibling text-format templates that place a name inside a C string literal (writer and reader of field names and enum names) are given the same name expression by the generator (R-TEXTNAME). "
             "Not decided: integer text encode/decode inverse, whole-structure round trip, option combinations."))
     r, s = cx.repo, cx.schema
     sctl = S.control(r)
@@ -32,4 +33,6 @@ def main(tier):
     chk.run("R-DEPTWIN", P.deptwin, r, s, cx.sites, floor=2)
     chk.run("R-IFACE", C.iface, cx.cpp, cx.templates, floor=80)
     chk.run("R-GUARDDEPS", C.guarddeps, cx.cpp, floor=2)
+    chk.run("R-ARRAYSEP", C.arraysep, cx.cpp, floor=3)
+    chk.run("R-ALIASDEPS", DR.aliasdeps, r, floor=2)
     return chk.finish()
